@@ -668,6 +668,9 @@ impl ExchangeCase {
 fn judge_exchange(ctx: &mut Ctx, ec: &ExchangeCase, timeout: Duration) {
     ctx.eval();
     ctx.count(&format!("exchange/{}", ec.bucket));
+    if ec.bucket.contains("pad>16MiB") {
+        ctx.count("exchanges_with_reply_above_16MiB");
+    }
     if ec.bucket.contains("stderr/") {
         ctx.count("exchanges_with_stderr_volume");
         if !ec.bucket.contains("stderr/pad<60KiB") {
